@@ -4,6 +4,7 @@
 // is the reading of the text under the documented grammar (lib/fio_parse_stubs.rs `grammar`, `ft_mant`, `ft_exp`,
 // `ft_prec`), normalised.  The primitive `str` is modelled by an opaque stub type with the contracts of the core::str
 // methods on ASCII strings; `UBig::from_str_radix` is seen through its documented contract (positional value).
+// (The wrapper `FBig::from_str_native` is unit float_parse_fbig: FN names must be unique inside a unit.)
 // KNOWN DEFECT REGIONS excluded by precondition: an inner '+' (plus_ok), a scale close to isize::MIN (scale_ok).
 #![allow(unused_imports, unused_variables, dead_code, non_snake_case, unused_mut, unused_parens, unused_braces, non_camel_case_types, unused_assignments)]
 use vstd::prelude::*;
